@@ -17,6 +17,8 @@ import (
 	"path/filepath"
 	"strconv"
 	"strings"
+	"sync"
+	"sync/atomic"
 
 	"lunar/engine/formats/har"
 	harcollector "lunar/engine/streams/processors/har-collector"
@@ -90,16 +92,16 @@ func clonePath(p path, extra ...string) path {
 // ---- case -------------------------------------------------------------------------------------
 
 type replay struct {
-	Case     int    `json:"case"`
-	Seed     uint64 `json:"seed"`
-	Part     string `json:"part"`     // random | exhaustive
-	Notation string `json:"notation"` // cursor | har
-	Doc      string `json:"doc"`
-	Excl     []path `json:"exclusions"`           // judged body (cursor: the only one; har: request body)
-	ExclResp []path `json:"exclusions_resp,omitempty"` // har: exclusions given for the response body
+	Case     int      `json:"case"`
+	Seed     uint64   `json:"seed"`
+	Part     string   `json:"part"`     // random | exhaustive
+	Notation string   `json:"notation"` // cursor | har
+	Doc      string   `json:"doc"`
+	Excl     []path   `json:"exclusions"`                // judged body (cursor: the only one; har: request body)
+	ExclResp []path   `json:"exclusions_resp,omitempty"` // har: exclusions given for the response body
 	Rendered []string `json:"rendered,omitempty"`
-	Output   string `json:"output,omitempty"`
-	Where    string `json:"where,omitempty"`
+	Output   string   `json:"output,omitempty"`
+	Where    string   `json:"where,omitempty"`
 }
 
 // ---- oracle -----------------------------------------------------------------------------------
@@ -107,12 +109,12 @@ type replay struct {
 type judge struct {
 	v        *sim.Verdict
 	rp       replay
-	excl     []path          // exclusions that apply to the body under judgement
-	other    []path          // har: exclusions of the other body (must not apply)
-	harPref  path            // har: components the notation puts in front ("$","request","body")
-	rendered []string        // exclusions exactly as handed to the code under test
+	excl     []path              // exclusions that apply to the body under judgement
+	other    []path              // har: exclusions of the other body (must not apply)
+	harPref  path                // har: components the notation puts in front ("$","request","body")
+	rendered []string            // exclusions exactly as handed to the code under test
 	hashes   map[string]struct{} // cursor mode: outputs the hasher produced during this call
-	seen     map[string]bool // one violation per signature per body
+	seen     map[string]bool     // one violation per signature per body
 	hidden   int
 	kept     int
 	nulls    int
@@ -449,7 +451,10 @@ func render(excl []path, prefix string) []string {
 	return out
 }
 
-type stats struct{ hidden, kept, collide, nulls int; types map[string]bool }
+type stats struct {
+	hidden, kept, collide, nulls int
+	types                        map[string]bool
+}
 
 func judgeBody(v *sim.Verdict, rp replay, doc any, outStr string, excl, other []path, harPref path, rendered []string, hashes map[string]struct{}) stats {
 	rp.Output = outStr
@@ -767,6 +772,103 @@ func randomCase(args sim.Args, i int) replay {
 	return rp
 }
 
+// bigCase: a large document (many keys, long strings) with a few exclusions on existing paths.
+func bigCase(args sim.Args, idx, worker, call int) replay {
+	r := args.CaseRand(idx*1000 + worker*100 + call)
+	keys := keyPool[:r.Range(3, len(keyPool))]
+	o := map[string]any{}
+	n := r.Range(8, 24)
+	for k := 0; k < n; k++ {
+		key := fmt.Sprintf("%s%d", sim.Pick(r, keys), k)
+		switch r.Intn(3) {
+		case 0:
+			o[key] = strings.Repeat(fmt.Sprintf("w%d-c%d-%s-", worker, call, key), r.Range(10, 120))
+		case 1:
+			o[key] = genDoc(r, r.Range(1, 3), keys)
+		default:
+			o[key] = map[string]any{"id": fmt.Sprintf("secret-w%d-c%d-%d", worker, call, k), "note": strings.Repeat("n", r.Range(50, 800)), "n": k}
+		}
+	}
+	rp := replay{Case: idx, Seed: args.Seed, Part: "concurrent", Notation: "cursor", Doc: marshalDoc(r, o)}
+	all := map[string]path{}
+	allPaths(o, nil, all)
+	ks := sim.SortedKeys(all)
+	for e := r.Range(1, 4); e > 0 && len(ks) > 0; e-- {
+		rp.Excl = append(rp.Excl, all[sim.Pick(r, ks)])
+	}
+	return rp
+}
+
+func concurrentRound(args sim.Args, v *sim.Verdict, idx int) {
+	const workers, calls = 8, 12
+	type result struct {
+		rp       replay
+		out      string
+		err      error
+		hashes   map[string]struct{}
+		rendered []string
+		panicked any
+	}
+	res := make([][]result, workers)
+	var wg sync.WaitGroup
+	var ready atomic.Int64
+	gate := make(chan struct{})
+	for w := 0; w < workers; w++ {
+		res[w] = make([]result, calls)
+		for c := 0; c < calls; c++ {
+			res[w][c].rp = bigCase(args, idx, w, c)
+		}
+		wg.Add(1)
+		go func(w int) {
+			defer wg.Done()
+			if ready.Add(1) == workers {
+				close(gate)
+			}
+			<-gate
+			for c := 0; c < calls; c++ {
+				x := &res[w][c]
+				func() {
+					defer func() { x.panicked = recover() }()
+					h := &recHasher{out: map[string]struct{}{}}
+					x.rendered = render(x.rp.Excl, "")
+					x.out, x.err = obfuscation.Obfuscator{Hasher: h}.ObfuscateJSON(x.rp.Doc, x.rendered)
+					x.hashes = h.out
+				}()
+			}
+		}(w)
+	}
+	wg.Wait()
+	v.Count("concurrent_rounds", 1)
+	for w := range res {
+		for c := range res[w] {
+			x := res[w][c]
+			v.Eval(1)
+			v.Count("concurrent_calls_judged", 1)
+			x.rp.Where = fmt.Sprintf("concurrent round: worker %d of %d, call %d", w, workers, c)
+			if x.panicked != nil {
+				v.Violate("C16/panic/concurrent", fmt.Sprint(x.panicked), x.rp)
+				return
+			}
+			if x.err != nil {
+				v.Violate("C16/error/valid-json-rejected", fmt.Sprintf("ObfuscateJSON = %v (concurrent calls)", x.err), x.rp)
+				return
+			}
+			doc, err := decode(x.rp.Doc)
+			if err != nil {
+				continue
+			}
+			before := len(v.Violations)
+			st := judgeBody(v, x.rp, doc, x.out, x.rp.Excl, nil, nil, x.rendered, x.hashes)
+			if len(v.Violations) > before {
+				return
+			}
+			v.Count("leaves_hidden", st.hidden)
+			v.Count("leaves_kept_verbatim", st.kept)
+		}
+	}
+	v.Distinct(fmt.Sprintf("concurrent/round%d", idx%16))
+}
+
 // ---- bounded-exhaustive workload --------------------------------------------------------------
 
 type leafMark struct{}
@@ -945,6 +1047,14 @@ func main() {
 		if i%1201 == 0 {
 			v.Sample(rp)
 		}
+	}
+	// part 3: concurrent calls (the obfuscator is shared by every transaction the gateway exports). Workers
+	// obfuscate large documents of their own at the same time; each output is then judged alone, exactly
+	// like a sequential one: what one call returns must not depend on what runs beside it.
+	nConc := args.Pick(24, 400)
+	lo, hi = args.Share(nConc)
+	for i := lo; i < hi; i++ {
+		concurrentRound(args, v, nExh+nRand+i)
 	}
 	if v.Counters["leaves_hidden"] == 0 || v.Counters["leaves_kept_verbatim"] == 0 {
 		v.Inconclude("no leaf had to be hidden or none had to stay verbatim in this batch")
